@@ -259,7 +259,9 @@ where
                 self.fail(format!("id-collision:{}/{}", self.bk, qual), d);
             }
         }
-        for (name, pid) in self.extra_ids.clone() {
+        // probe names belong to the first agent
+        let probes = if self.items[item].agent == 0 || self.global_ids { self.extra_ids.clone() } else { vec![] };
+        for (name, pid) in probes {
             if pid == id {
                 let d = format!("{} was assigned id {:?}, already assigned to probe name {:?}", self.item_desc(item), id, name);
                 self.fail(format!("id-collision:{}/probe", self.bk), d);
@@ -560,7 +562,12 @@ where
         Ok(())
     }
 
-    pub fn run(&mut self, ops: &[Op]) {
+    pub fn run(&mut self, prealloc: u16, ops: &[Op]) {
+        for i in 0..prealloc {
+            if self.probe(&format!("\u{3}pre{}", i)).is_err() {
+                return;
+            }
+        }
         for (i, op) in ops.iter().enumerate() {
             self.at = i;
             if self.step(op).is_err() {
@@ -595,6 +602,7 @@ fn case_classes(v: &mut Verdict, case: &Case, uris: &[String], items: &[FlatItem
     v.class_if(stats.key_prefix_pair, "key-prefix-of-key");
     v.class_if(stats.id_collision, "id-collision-observed");
     v.class_if(uris.len() >= 2, "agents>=2");
+    v.class_if(case.prealloc > 0, "ids-around-256");
     v.class_if(items.iter().any(|i| i.name.is_empty()), "empty-name");
     v.class_if(items.iter().any(|i| !i.name.is_ascii()), "non-ascii-name");
     v.class_if(items.iter().any(|i| i.name.contains('/')), "name-with-slash");
@@ -650,7 +658,7 @@ pub fn check_rocks(case: &Case) -> Verdict {
     let scratch = Scratch::new();
     let dir = scratch.0.clone();
     let mut ex = Exec::new("rocks", true, &uris, &items, || open_rocks(&dir));
-    ex.run(&case.ops);
+    ex.run(case.prealloc, &case.ops);
     ex.close_all();
     finish_case(ex, case)
 }
@@ -660,7 +668,7 @@ pub fn check_mem(case: &Case) -> Verdict {
     // The plane store lives as long as the server process; "closing" it is not meaningful.
     let plane = InMemoryPlanePersistence::default();
     let mut ex = Exec::new("mem", false, &uris, &items, || Ok(plane.clone()));
-    ex.run(&case.ops);
+    ex.run(case.prealloc, &case.ops);
     ex.close_all();
     finish_case(ex, case)
 }
